@@ -18,6 +18,15 @@ type Violation struct {
 	Scenario json.RawMessage `json:"scenario,omitempty"`
 	Trace    []int32         `json:"decisions,omitempty"` // flattened (task, arm) pairs
 	Hash     uint64          `json:"hash,omitempty"`
+	// History: the runs the same worker process executed before this one (library state that
+	// survives a run - caches, pools - can make a violation depend on them)
+	History *History `json:"history,omitempty"`
+}
+
+// History identifies earlier runs of a worker by generator coordinates.
+type History struct {
+	Seed    uint64 `json:"seed"`
+	Indices []int  `json:"indices"`
 }
 
 // Key identifies the violation class.
